@@ -37,7 +37,7 @@ func Run(c *corr.Ctx) {
 	corpus(c)
 
 	// (a) Decode
-	for i, n := 0, c.N(8000, 300000); i < n; i++ {
+	for i, n := 0, c.N(8000, 200000); i < n; i++ {
 		decRun(c, genDecHistory(c), fmt.Sprintf("dec-%d", i))
 	}
 	lap("dec random")
@@ -70,7 +70,7 @@ func Run(c *corr.Ctx) {
 
 	lap("ntp fraction sweeps")
 	// (c) sender report → PacketNTP
-	for i, n := 0, c.N(8000, 250000); i < n; i++ {
+	for i, n := 0, c.N(8000, 150000); i < n; i++ {
 		srRun(c, genSRHistory(c), fmt.Sprintf("sr-%d", i))
 	}
 	srBoundary(c)
